@@ -62,13 +62,14 @@ def run(ctx):
 
 
 def none_defaults_tested_by_identity(ctx, rule='NONE/default-tested-by-identity'):
-  """Location-independent: a parameter that defaults to None and carries a step offset (`*_step`) or an event sequence / event list
-  (`melody`, `chords`, `events`) has valid values that are falsy - step 0, a sequence of zero events (the sequence classes define
+  """Location-independent: a parameter that defaults to None and carries a step offset (`*_step`) or an event sequence
+  (`melody`, `chords`) has valid values that are falsy - step 0, a sequence of zero events (the sequence classes define
   __len__).  "Was it given" must therefore be asked with `is None` / `is not None`.  A truth test of such a parameter (`if melody:`,
   `x if start_step else y`) or `param or fallback` with a fallback other than the falsy value itself takes the not-given path for
   step 0 / an empty sequence: the offset or the resolution of the result is replaced by a default."""
   def tracked(name):
-    return name.endswith('_step') or name == 'step' or name in ('melody', 'chords', 'events', 'chord_progression', 'drum_track')
+    # (`events` is not tracked: not given and given-but-empty both mean "no events", so `list(events) if events else []` is harmless)
+    return name.endswith('_step') or name == 'step' or name in ('melody', 'chords', 'chord_progression', 'drum_track')
   n = 0
   for mod in ('events_lib', 'melodies_lib', 'chords_lib', 'drums_lib', 'lead_sheets_lib'):
     mi = ctx.P.module(mod)
